@@ -28,7 +28,7 @@ def quiescent_layer(ctx: Ctx):
                    need_actions=need)
     groups = {}
     bi = 0
-    cs = dc.consts(MaxId=5, MaxOps=1, Prios=[5, 10], RelDelays=[0, 1, 2], AbsTimes=[], BadKinds=["hstart", "hrun", "hstep", "reinit"], Cmds=ALL, Bounds=[0, 1, 2, 3, 4],
+    cs = dc.consts(MaxId=5, MaxOps=1, Prios=[5, 10], RelDelays=[0, 1, 2], AbsTimes=[], BadKinds=["hstart", "hrun", "hstep", "reinit"], HStopOps=True, Cmds=ALL, Bounds=[0, 1, 2, 3, 4],
                    MaxCmds=10, MaxInits=3, EndT=3, WarmT=1)
     for beh in dc.simulate(ctx, "DEVS lifecycle", cs, num=ctx.pick(300, 3000), depth=60, seed=ctx.seed + 40):
         conc = dd.CONCS_OFF[bi % len(dd.CONCS_OFF)]
